@@ -8,6 +8,7 @@ import (
 	"math"
 	"math/rand"
 	"regexp"
+	"runtime/debug"
 	"strconv"
 	"strings"
 	"time"
@@ -66,7 +67,18 @@ func (v c17Val) MarshalJSON() ([]byte, error) {
 func (v c17Val) isRef() bool   { return v.Kind == 0 && strings.HasPrefix(v.Leaf, "#") }
 func (v c17Val) isError() bool { return v.Kind == 0 && v.Leaf == "error" }
 func (v c17Val) isNull() bool  { return v.Kind == 0 && v.Leaf == "null" }
-func (v c17Val) isAtom() bool  { return v.Kind == 0 && !v.isRef() && !v.isError() && !v.isNull() }
+func (v c17Val) isView() bool  { return v.Kind == 0 && strings.HasPrefix(v.Leaf, "~") }
+func (v c17Val) isAtom() bool {
+	return v.Kind == 0 && !v.isRef() && !v.isError() && !v.isNull() && !v.isView()
+}
+
+// view: "~2.1.2" = the array value that shares the storage of container 2 and shows len 2 elements from offset 1
+func (v c17Val) view() (id, off, n int) {
+	if _, err := fmt.Sscanf(v.Leaf, "~%d.%d.%d", &id, &off, &n); err != nil {
+		infra("bad view %q", v.Leaf)
+	}
+	return
+}
 func (v c17Val) refID() int {
 	n, err := strconv.Atoi(v.Leaf[1:])
 	if err != nil {
@@ -1126,13 +1138,52 @@ func c17MediumHeaps(r *rand.Rand, count, maxN int) [][]c17Val {
 
 // ---------------------------------------------------------------------------
 
-func init() { register("C17", checkC17) }
+func init() {
+	register("C17", checkC17)
+	// "c17run": the run kind with the goroutine stack bounded to 64 MiB (the Go default is 1 GiB).  The values
+	// of the heap families have at most a few hundred containers; a rendering that recurses without end then
+	// dies within milliseconds instead of first eating a gigabyte per worker (16 workers in parallel).
+	jobKinds["c17run"] = func(j *Job) Result {
+		defer debug.SetMaxStack(debug.SetMaxStack(64 << 20)) // restored afterwards: other job kinds of the same worker keep the default
+		return execRun(j)
+	}
+}
+
+// c17Decided: 20 violations are on record, the verdict of this run is settled; the families stop
+// submitting work (a change that makes every second vector crash a worker would otherwise keep the
+// run busy until TLC's timeout turns it into an infrastructure failure).
+func c17Decided(c *Ctx) bool {
+	c.mu.Lock()
+	defer c.mu.Unlock()
+	return len(c.violations) >= 20
+}
+
+// c17NonTerm decides what a dead / hung / panicking worker means: the first two occurrences are
+// reproduced in isolation (the machine may be loaded), after that the class is established and
+// every further one is taken as it is.  Returns the result to judge and whether it is a violation.
+type c17NonTerm struct{ confirmed int }
+
+func (n *c17NonTerm) settle(pool *Pool, j *Job, r Result) (Result, bool) {
+	if r.Class != "crash" && r.Class != "timeout" && r.Class != "panic" {
+		return r, false
+	}
+	if n.confirmed >= 2 {
+		return r, true
+	}
+	r2 := pool.Do(j)
+	if r2.Class == r.Class {
+		n.confirmed++
+		return r2, true
+	}
+	return r2, r2.Class == "crash" || r2.Class == "timeout" || r2.Class == "panic"
+}
 
 type c17Vec struct {
 	H    []c17Val `json:"h"`
 	Args []c17Val `json:"args"`
 	Out  []string `json:"out"`
 	JS   []c17Val `json:"js"`
+	RB   bool     `json:"rb"` // MC_Render.RepeatedBack: an ancestor is referred to twice from below itself
 }
 
 type c17DocVec struct {
@@ -1161,7 +1212,7 @@ func checkC17(c *Ctx) {
 	c.Assume("heaps are built with every array allocated at its final size before a reference to it is stored; arrays that grow after being aliased are C09's finding alias-length and are not printed here")
 	c.Assume("large-heap family (up to ~200 containers): the oracle is a Go transcription of JqRender.Pretty, cross-checked token by token against TLC on every vector of the exhaustive universe")
 	pool := c.Pool()
-	var nNum, nReread, nCirc, nCross int64
+	var nNum, nReread, nCirc, nCross, nRepeatBack int64
 	phases := map[string]float64{}
 	t0 := time.Now()
 	phase := func(name string) {
@@ -1169,20 +1220,18 @@ func checkC17(c *Ctx) {
 		t0 = time.Now()
 	}
 
+	nonTerm := &c17NonTerm{}
 	// verdict for one executed print job
 	judge := func(fam string, j *Job, r Result, in *c17Inst, toks []string, js []c17Val, key string, nontrivial bool) {
 		rep := func(why string) map[string]any {
 			return map[string]any{"family": fam, "program": string(j.Prog), "input": string(j.Files[0].Data), "vector": json.RawMessage(j.Tag),
 				"expected_tokens": toks, "got_class": r.Class, "got_stdout": c17Clip(r.Stdout), "got_err": r.ErrMsg, "why": why, "detail": r.Detail}
 		}
-		if r.Class == "crash" || r.Class == "timeout" || r.Class == "panic" {
-			// rendering must terminate: reproduce once in isolation before reporting
-			r2 := pool.Do(j)
-			if r2.Class == r.Class {
-				c.Violation("print-does-not-terminate", rep("worker "+r.Class+" while printing (reproduced twice)"))
-				return
-			}
-			r = r2
+		// rendering must terminate: a dead or hung worker is reproduced in isolation before it is reported
+		var bad bool
+		if r, bad = nonTerm.settle(pool, j, r); bad {
+			c.Violation("print-does-not-terminate", rep("worker "+r.Class+" while printing: rendering must terminate (reproduced in isolation)"))
+			return
 		}
 		if r.Class != "ok" {
 			c.Violation("print-error", rep("printing must succeed"))
@@ -1225,6 +1274,9 @@ func checkC17(c *Ctx) {
 			in.prealloc(v.H...)
 			in.prealloc(v.Args...)
 			nontrivial := len(v.H) > 1 || len(v.Args) != 1
+			if v.RB {
+				nRepeatBack++
+			}
 			judge(fam, j, r, in, v.Out, v.JS, fam+":"+j.Tag, nontrivial)
 			n++
 			if n%sampleEvery == 1 {
@@ -1241,6 +1293,9 @@ func checkC17(c *Ctx) {
 					infra("Go transcription of JqRender.Pretty disagrees with TLC on %s: %v", raw, mt)
 				}
 				nCross++
+				if c17Decided(c) {
+					return
+				}
 				in := c17NewInst(c.Seed, raw)
 				in.prealloc(v.H...)
 				in.prealloc(v.Args...)
@@ -1255,7 +1310,7 @@ func checkC17(c *Ctx) {
 					}
 					return []string{"print " + strings.Join(parts, ", ")}
 				})
-				st.Submit(Job{Kind: "run", Prog: b.Prog, Files: []FileIn{{Name: "in.json", Data: b.Doc}}, Tag: string(raw)})
+				st.Submit(Job{Kind: "c17run", Prog: b.Prog, Files: []FileIn{{Name: "in.json", Data: b.Doc}}, Tag: string(raw)})
 			}})
 		st.Wait()
 	}
@@ -1276,6 +1331,55 @@ func checkC17(c *Ctx) {
 		`Classes = {"s", "n", "l"}`, `ArgMode = "lists"`, "MaxArgs = 3", "INVARIANT Laws", "INVARIANT VecPrint", "CHECK_DEADLOCK FALSE"), 1500)
 
 	phase("arglists")
+	// ---- (A2b) the print statement as a unit: arguments with effects, errors, control signals (MC_PrintStmt)
+	c17PrintStmtFamily(c, pool, nonTerm)
+	phase("print-stmt")
+	// ---- (A2c) arrays that share storage but differ in length / start (MC_RenderView)
+	if !c17Decided(c) {
+		c.Assume("views (arrays that share storage but differ in length, MC_RenderView) exist only through C09's open finding alias-length; each vector first confirms by length() probes that the implementation realised the windows of the model, vectors whose probes differ are not compared")
+		var nReal, nUnreal int64
+		cfg, _ := c17ViewCfg(c.Thorough())
+		nvw := 0
+		stv := pool.NewStream(func(j *Job, r Result) {
+			var v c17ViewVec
+			VecDecode([]byte(j.Tag), &v)
+			in := c17NewInst(c.Seed, []byte(j.Tag))
+			in.prealloc(v.H...)
+			c17ViewDistinct(in, v.H)
+			b := c17BuildViews(in, v.H, rand.New(rand.NewSource(c17Seed(c.Seed, []byte(j.Tag), "view-print"))), nil)
+			if r.Class == "ok" {
+				rest, realised := c17ViewProbe(r.Stdout, b.Probes)
+				if !realised {
+					nUnreal++
+					return
+				}
+				r.Stdout = rest
+			}
+			nReal++
+			judge("view-print", j, r, in, v.Out, []c17Val{v.Exp}, "view-print:"+j.Tag, true)
+			nvw++
+			if nvw%4000 == 1 {
+				c.Sample(map[string]any{"family": "view-print", "program": string(j.Prog), "input": string(j.Files[0].Data), "expected_tokens": v.Out, "stdout": c17Clip(r.Stdout)})
+			}
+		})
+		c.TLC(TLCOpt{Module: "MC_RenderView", Workers: 8, Heap: "6g", Cfg: cfg,
+			OnVec: func(raw []byte) {
+				if c17Decided(c) {
+					return
+				}
+				var v c17ViewVec
+				VecDecode(raw, &v)
+				in := c17NewInst(c.Seed, raw)
+				in.prealloc(v.H...)
+				c17ViewDistinct(in, v.H)
+				b := c17BuildViews(in, v.H, rand.New(rand.NewSource(c17Seed(c.Seed, raw, "view-print"))), []string{"print c1"})
+				stv.Submit(Job{Kind: "c17run", Prog: b.Prog, Files: []FileIn{{Name: "in.json", Data: b.Doc}}, Tag: string(raw)})
+			}})
+		stv.Wait()
+		c.Set("view_vectors_realised", nReal)
+		c.Set("view_vectors_not_realised", nUnreal)
+	}
+	phase("views")
 	// ---- (A3) documents as read: bare print in BEGINFILE, and a rule without a body
 	w3 := 1
 	if c.Thorough() {
@@ -1309,6 +1413,9 @@ func checkC17(c *Ctx) {
 		OnVec: func(raw []byte) {
 			var v c17DocVec
 			VecDecode(raw, &v)
+			if c17Decided(c) {
+				return
+			}
 			in := c17NewInst(c.Seed, raw)
 			in.prealloc(v.Doc)
 			r := rand.New(rand.NewSource(c17Seed(c.Seed, raw, "doc")))
@@ -1385,7 +1492,7 @@ func checkC17(c *Ctx) {
 
 	phase("numbers")
 	// ---- (A5) heaps of 4..40 containers, oracle = TLC (Trace_Render)
-	{
+	if !c17Decided(c) {
 		nMed := 150
 		if c.Thorough() {
 			nMed = 800
@@ -1405,7 +1512,7 @@ func checkC17(c *Ctx) {
 			b := c17Build(in, h, rand.New(rand.NewSource(c17Seed(c.Seed, raw, "prog"))), func(expr func(c17Val) string) []string {
 				return []string{"print c1"}
 			})
-			jobs = append(jobs, Job{Kind: "run", Prog: b.Prog, Files: []FileIn{{Name: "in.json", Data: b.Doc}}, Tag: string(raw)})
+			jobs = append(jobs, Job{Kind: "c17run", Prog: b.Prog, Files: []FileIn{{Name: "in.json", Data: b.Doc}}, Tag: string(raw)})
 			ins = append(ins, in)
 		}
 		pool.Map(jobs, func(i int, r Result) {
@@ -1415,7 +1522,7 @@ func checkC17(c *Ctx) {
 
 	phase("medium")
 	// ---- (B) termination at scale: random heaps of up to ~200 containers with back edges
-	{
+	if !c17Decided(c) {
 		nLarge := 150
 		if c.Thorough() {
 			nLarge = 1500
@@ -1440,7 +1547,7 @@ func checkC17(c *Ctx) {
 			b := c17Build(in, heap, rand.New(rand.NewSource(c17Seed(c.Seed, raw, "prog"))), func(expr func(c17Val) string) []string {
 				return []string{"print c1"}
 			})
-			jobs = append(jobs, Job{Kind: "run", Prog: b.Prog, Files: []FileIn{{Name: "in.json", Data: b.Doc}}, Tag: string(raw)})
+			jobs = append(jobs, Job{Kind: "c17run", Prog: b.Prog, Files: []FileIn{{Name: "in.json", Data: b.Doc}}, Tag: string(raw)})
 			metas = append(metas, lg{heap, toks, in})
 		}
 		var maxC, maxOut, withCirc int
@@ -1467,6 +1574,7 @@ func checkC17(c *Ctx) {
 	c.Set("numbers_contract_checked", nNum)
 	c.Set("containers_reread_as_json", nReread)
 	c.Set("outputs_with_circular_reference", nCirc)
+	c.Set("outputs_with_two_back_references_to_one_ancestor", nRepeatBack)
 	c.Set("go_model_cross_checked_vectors", nCross)
 	c.Set("rule", "TLC enumerates every heap of <= 3 containers x <= 2 slots x {string, number, literal, reference} up to renaming (57,354), every print argument list of 0..3 values over 2-container heaps, and every JSON document tree of depth <= 3; "+
 		"each is built by an assignment-only program on the real interpreter and stdout is matched against the model's token sequence (object members in any order); a case is non-trivial when it has more than one container or is not a single-argument print; distinct by vector")
@@ -1512,7 +1620,16 @@ func c17GenHeap(r *rand.Rand, n int) ([]c17Val, []string) {
 		}
 		for k := 0; k < back; k++ { // edge to an earlier container or to itself: mostly a cycle
 			i := r.Intn(n)
-			ins(i, fmt.Sprintf("#%d", 1+r.Intn(i+1)))
+			t := 1 + r.Intn(i+1)
+			ins(i, fmt.Sprintf("#%d", t))
+			// a second reference to the same ancestor: from the same container, or from one created after
+			// the target (often inside its rendering): the ancestor is met again after it was met once
+			switch r.Intn(4) {
+			case 0:
+				ins(i, fmt.Sprintf("#%d", t))
+			case 1:
+				ins(t-1+r.Intn(n-t+1), fmt.Sprintf("#%d", t))
+			}
 		}
 		for k := 0; k < share && n > 1; k++ { // edge to a later container: sharing (or a cycle through a back edge)
 			i := r.Intn(n - 1)
